@@ -1,1 +1,59 @@
-From Coq Require Import ZArith.
+(* C15 — Gradient paint: premultiplied interpolation, spread modes, geometry.
+   Statements only; proofs in proofs/ClampR.v.  Spread.Clamp is the single polymorphic definition
+   Gradient.clamp_gen: its float64 instance is compared bit-for-bit with render/gradient.go (together
+   with Gradient.At on thousands of pixels), and these theorems are about its instance over the reals.
+   PARTIAL: the piece-wise linear interpolation itself (Gradient.At locating the range of an offset)
+   is modelled and compared with the implementation, and its premultiplication / end-point facts are
+   proved for the interpolation formula (interp_*), but "At returns the interpolation at the clamped
+   offset" is not yet a theorem about the list-search in grad_at. *)
+From Coq Require Import Reals ZArith Bool.
+From IVG Require Import Gradient ClampR.
+Local Open Scope R_scope.
+
+(* reflect is a continuous triangle wave of period 2, for every real offset *)
+Theorem clamp_reflect : forall x, clampR 2 x = tri x.
+Proof. exact ClampR.clamp_reflect. Qed.
+Print Assumptions clamp_reflect.
+
+Theorem tri_value : forall y, 0 <= y ->
+  tri y = if Z.odd (Int_part y) then 1 - frac_part y else frac_part y.
+Proof. exact ClampR.tri_nonneg. Qed.
+Print Assumptions tri_value.
+
+Theorem tri_even : forall x, tri (- x) = tri x.
+Proof. exact ClampR.tri_even. Qed.
+Print Assumptions tri_even.
+
+Theorem clamp_pad : forall x, clampR 1 x = if Rle_dec 0 x then (if Rle_dec x 1 then x else 1) else 0.
+Proof. exact ClampR.clamp_pad. Qed.
+Print Assumptions clamp_pad.
+
+Theorem clamp_repeat : forall x, clampR 3 x = if Rle_dec 0 x then (if Rle_dec x 1 then x else frac_part x) else frac_part x.
+Proof. exact ClampR.clamp_repeat. Qed.
+Print Assumptions clamp_repeat.
+
+Theorem clamp_none : forall x, clampR 0 x = if Rle_dec 0 x then (if Rle_dec x 1 then x else -1) else -1.
+Proof. exact ClampR.clamp_none. Qed.
+Print Assumptions clamp_none.
+
+Theorem clamp_range : forall sp x, (sp = 1 \/ sp = 2 \/ sp = 3)%Z -> 0 <= clampR sp x <= 1.
+Proof. exact ClampR.clamp_range. Qed.
+Print Assumptions clamp_range.
+
+(* interpolation in premultiplied space stays premultiplied; truncation to 16 bits is monotone *)
+Theorem interp_premul : forall t r0 a0 r1 a1, 0 <= t <= 1 -> r0 <= a0 -> r1 <= a1 ->
+  (1 - t) * r0 + t * r1 <= (1 - t) * a0 + t * a1.
+Proof. exact ClampR.interp_premul. Qed.
+Print Assumptions interp_premul.
+
+Theorem trunc_mono : forall x y, x <= y -> (Int_part x <= Int_part y)%Z.
+Proof. exact ClampR.trunc_mono. Qed.
+Print Assumptions trunc_mono.
+
+Theorem interp_endpoints : forall c0 c1, (1 - 0) * c0 + 0 * c1 = c0 /\ (1 - 1) * c0 + 1 * c1 = c1.
+Proof. exact ClampR.interp_endpoints. Qed.
+Print Assumptions interp_endpoints.
+
+(* the float64 instance at the odd integer where the repaired defect lived *)
+Example ex_reflect3 : clamp 2 (SF.of_Z SF.F64 3) = SF.of_Z SF.F64 1.
+Proof. vm_compute. reflexivity. Qed.
